@@ -317,6 +317,16 @@ void concurrent(std::uint64_t total)
     unsigned nops = static_cast<unsigned>(g.below(3)) + 3;     // 3..5 per thread
     int rootlvl = static_cast<int>(g.below(7));
     bool use_barrier = g.chance(2, 3);
+    // every fourth history is a creation storm: all threads create an object for the SAME not yet existing name at the
+    // same barrier, step after step (lookup-or-create must be one atomic step; two nodes for one name would detach an object)
+    bool const storm = g.chance(1, 4);
+    if (storm)
+    {
+      nthreads = static_cast<unsigned>(g.below(3)) + 4; // 4..6
+      nops = 5;
+      use_barrier = true;
+      VF_COUNT("log/conc/creation-storm-histories");
+    }
     // few locations, so that the threads collide: one random top-level name and its subtree
     int top = static_cast<int>(g.below(3));
     sinks_t sinks;
@@ -331,7 +341,7 @@ void concurrent(std::uint64_t total)
     for (int b = 0; b < 3; ++b)
       for (int c = 0; c < 3; ++c)
       {
-        if (g.chance(1, 3))
+        if (storm || g.chance(1, 3))
           continue;
         Loc at{top, b};
         LObj lo;
@@ -341,11 +351,21 @@ void concurrent(std::uint64_t total)
       }
     // plans
     std::vector<std::vector<Op>> plan(nthreads);
+    std::vector<Loc> storm_target;
+    for (unsigned i = 0; i < nops; ++i)
+      storm_target.push_back(Loc{top, static_cast<int>(g.below(3)), static_cast<int>(g.below(3))});
     for (unsigned t = 0; t < nthreads; ++t)
       for (unsigned i = 0; i < nops; ++i)
       {
         Op o;
         o.thread = static_cast<int>(t);
+        if (storm && !g.chance(1, 6))
+        {
+          o.k = OpK::Create;
+          o.loc = storm_target[i];
+          plan[t].push_back(o);
+          continue;
+        }
         unsigned k = static_cast<unsigned>(g.below(10));
         Loc hot{top};
         if (g.chance(1, 2))
@@ -583,6 +603,35 @@ void concurrent(std::uint64_t total)
                         "root=" + std::to_string(rootlvl) + " the levels read after all threads finished are not the result of any sequential order: " + show_history(finals, t0));
       }
     }
+    // probe (after everything above was judged): a set exactly on the location of a created object must reach every object
+    // that was created for this location, however the creations interleaved
+    {
+      std::set<Loc> probed;
+      for (auto const &per_thread : created)
+        for (auto const &co : per_thread)
+        {
+          if (!probed.insert(co.first).second)
+            continue;
+          int const cur = fromopt(ctx.get(mkloc(co.first)));
+          int const want = (cur + 1) % 7;
+          ctx.set(mkloc(co.first), toopt(want));
+          unsigned n = 0;
+          for (auto const &pt : created)
+            for (auto const &c2 : pt)
+              if (c2.first == co.first)
+              {
+                ++n;
+                VF_COUNT("log/conc/probe/object-levels-after-set");
+                int const got = fromopt(c2.second->level());
+                if (got != want)
+                  vf::violation("log/concurrent/object-detached-from-its-location", "history",
+                                "after all threads finished, set(" + show(co.first) + ", " + std::to_string(want) + ") left an object created for this location at level " +
+                                    std::to_string(got) + "; history: " + show_history(all, t0));
+              }
+          if (n > 1)
+            VF_COUNT("log/conc/probe/locations-with-several-objects");
+        }
+    }
     if (h < 2)
       vf::sample(show_history(all, t0), 40);
   }
@@ -594,7 +643,7 @@ void body()
   for (char const *b : {"log/seq/set", "log/seq/set-empty-level", "log/seq/get", "log/seq/create-by-location", "log/seq/create-by-context",
                         "log/seq/create-by-parent", "log/seq/object-level", "log/seq/log-emitted", "log/seq/log-suppressed",
                         "log/conc/histories-checked", "log/conc/overlap/set-set", "log/conc/overlap/set-get", "log/conc/overlap/set-create",
-                        "log/conc/overlap/create-create", "log/conc/overlap/set-lockfree-read", "log/conc/lockfree-reads-checked",
+                        "log/conc/overlap/create-create", "log/conc/creation-storm-histories", "log/conc/probe/locations-with-several-objects", "log/conc/overlap/set-lockfree-read", "log/conc/lockfree-reads-checked",
                         "log/conc/quiescent-checks", "log/conc/quiescent-object-levels"})
     vf::require_bucket(b);
   sequential(vf::tier<std::uint64_t>(20000, 1000000));
